@@ -7,6 +7,7 @@ mkdir -p "$D"
 cp "$SRC/patch.diff" "$D/patch.diff"
 [ -f "$SRC/demo.c" ] && cp "$SRC/demo.c" "$D/demo.c"
 [ -f "$SRC/notes.md" ] && cp "$SRC/notes.md" "$D/notes.md"
+[ -f "$SRC/ldflags" ] && cp "$SRC/ldflags" "$D/ldflags"
 python3 - "$D" "$PROP" "$CAUGHT" "$*" <<'PY'
 import json,sys
 d,prop,caught,needs=sys.argv[1:5]
